@@ -685,6 +685,34 @@ func (m *machine) runRound(hist *[]string) {
 	if m.viol != nil {
 		return
 	}
+	// C08: a report answered with a client error is discarded. Judged once the
+	// round is over, for the uploaders that ran to their end (a killed one
+	// discards nothing) on a healthy disk: after the answer the uploader has
+	// removed the week's waiting report, or tried to and found it gone (another
+	// uploader that was sent away with the same report came first). Whether the
+	// name is free afterwards is not judged: an uploader that was already building
+	// the week's report may put its own there.
+	if !m.faultsOn {
+		for _, r := range s.Requests[reqsBefore:] {
+			if r.Status < 400 || r.Status >= 500 || r.Task == nil || !r.Task.Done || r.Proc.Killed {
+				continue
+			}
+			week := r.URL[strings.LastIndexByte(r.URL, '/')+1:]
+			tried := false
+			for _, fc := range s.CallLog[callsBefore:] {
+				if fc.Task == r.Task && fc.Step >= r.Step && (fc.Op == "remove" || fc.Op == "removeall" || fc.Op == "rename") {
+					if w, kind := weekOfReportPath(fc.Path); w == week && kind == "ready" {
+						tried = true
+						break
+					}
+				}
+			}
+			if !tried {
+				m.fail("rejected-report-kept", "uploader task %s got status %d for week %s and ran to its end without discarding the report", r.Task.Name, r.Status, week)
+				return
+			}
+		}
+	}
 	after := dirState(m.loc, m.upl)
 	m.checkRound(before, after, callsBefore, reqsBefore, tasks)
 }
